@@ -96,6 +96,9 @@ impl VMBuilder {
 struct Compiler {
     b: VMBuilder,
     options: RegexOptions,
+    // number of enclosing constructs that have an entry on the VM's explicit stack while
+    // their body runs (atomic groups, conditions of conditionals, hard look-around bodies)
+    explicit_depth: usize,
 }
 
 impl Compiler {
@@ -103,6 +106,7 @@ impl Compiler {
         Compiler {
             b: VMBuilder::new(max_group),
             options: Default::default(),
+            explicit_depth: 0,
         }
     }
 
@@ -155,7 +159,10 @@ impl Compiler {
                 // TODO optimization: atomic insns are not needed if the
                 // child doesn't do any backtracking.
                 self.b.add(Insn::BeginAtomic);
-                self.visit(&info.children[0], false)?;
+                self.explicit_depth += 1;
+                let result = self.visit(&info.children[0], false);
+                self.explicit_depth -= 1;
+                result?;
                 self.b.add(Insn::EndAtomic);
             }
             Expr::Delegate { .. } => {
@@ -233,7 +240,10 @@ impl Compiler {
         self.b.add(Insn::Split(split_pc + 1, usize::MAX));
 
         // add the conditional expression
-        handle_child(self, 0)?;
+        self.explicit_depth += 1;
+        let result = handle_child(self, 0);
+        self.explicit_depth -= 1;
+        result?;
 
         // mark it as successful to remove the state we added as a split earlier
         self.b.add(Insn::EndAtomic);
@@ -246,6 +256,12 @@ impl Compiler {
 
         // add the false branch, update the split target
         self.b.set_split_target(split_pc, self.b.pc(), true);
+        if self.explicit_depth > 0 {
+            // The condition failed, so the `EndAtomic` above was not executed: drop our entry
+            // from the explicit stack, otherwise the enclosing construct would pop it instead
+            // of its own. (All branches pushed since `BeginAtomic` are gone, nothing is cut.)
+            self.b.add(Insn::EndAtomic);
+        }
         handle_child(self, 2)?;
 
         // update the jump target for jumping over the false branch
@@ -428,8 +444,13 @@ impl Compiler {
         // so only a hard body (compiled piecewise) needs the explicit cut.
         if inner.hard {
             self.b.add(Insn::BeginAtomic);
+            self.explicit_depth += 1;
         }
-        self.compile_lookaround_inner(inner, la)?;
+        let result = self.compile_lookaround_inner(inner, la);
+        if inner.hard {
+            self.explicit_depth -= 1;
+        }
+        result?;
         if inner.hard {
             self.b.add(Insn::EndAtomic);
         }
